@@ -204,6 +204,10 @@ func (c *Ctx) constByte(v ssa.Value) (int64, bool) {
 				return a & b, true
 			case token.ADD:
 				return a + b, true
+			case token.SHL:
+				if b >= 0 && b < 56 {
+					return a << uint(b), true
+				}
 			}
 		}
 	case *ssa.Call:
@@ -348,10 +352,6 @@ func (c *Ctx) fillSite(s *reqSite) {
 		eachInstr(f, func(in ssa.Instruction) {
 			switch x := in.(type) {
 			case *ssa.MapUpdate:
-				mt, ok := x.Map.Type().Underlying().(*types.Map)
-				if !ok || chanElemName(mt.Elem()) != s.AckT {
-					return
-				}
 				ld, ok := x.Map.(*ssa.UnOp)
 				if !ok {
 					return
@@ -360,13 +360,17 @@ func (c *Ctx) fillSite(s *reqSite) {
 				if !ok || typeName(fa.X.Type()) != "signaller" {
 					return
 				}
+				kind, idv, ok := c.waiterEntry(x.Map, x.Key)
+				if !ok || kind != s.AckT {
+					return
+				}
 				// feasible under the specialisation?
 				if _, ok := CanReach(f, nil, func(i ssa.Instruction) bool { return i == in }, s.Q); !ok {
 					return
 				}
 				s.Reg = in
 				s.RegChan = c.ResolveQ(f, x.Value, s.Q)
-				s.RegKey = x.Key
+				s.RegKey = idv
 				s.SigBase = c.Resolve(fa.X)
 			case *ssa.Store:
 				fa, ok := x.Addr.(*ssa.FieldAddr)
@@ -597,4 +601,122 @@ func (c *Ctx) packetField(v ssa.Value, name string) ssa.Value {
 		return a
 	}
 	return fv
+}
+
+// waiterEntry classifies an access m[key] to a waiter table of the signaller: the acknowledgement kind the entry is for and
+// the packet-identifier part of the key. The kind is either the element type of a per-kind table (map[uint16]chan *pktPubAck)
+// or, for a table shared by several kinds, a packetType constant combined with the identifier into the key in a way that
+// keeps both recoverable (identifier in the low bits, constant shifted above the identifier's width).
+func (c *Ctx) waiterEntry(m ssa.Value, key ssa.Value) (kind string, id ssa.Value, ok bool) {
+	mt, isMap := m.Type().Underlying().(*types.Map)
+	if !isMap {
+		return "", nil, false
+	}
+	if k := chanElemName(mt.Elem()); k != "" && c.NamedType(k) != nil && specKind(k) {
+		return k, key, true
+	}
+	if _, isChan := mt.Elem().Underlying().(*types.Chan); !isChan {
+		return "", nil, false
+	}
+	kv, idv, ok := c.splitKindKey(key)
+	if !ok {
+		return "", nil, false
+	}
+	name, known := specPacketType[kv]
+	if !known {
+		return "", nil, false
+	}
+	return name, idv, true
+}
+
+func specKind(name string) bool {
+	for _, n := range specPacketType {
+		if n == name {
+			return true
+		}
+	}
+	return false
+}
+
+func uintBits(t types.Type) int {
+	b, ok := t.Underlying().(*types.Basic)
+	if !ok {
+		return 0
+	}
+	switch b.Kind() {
+	case types.Uint8:
+		return 8
+	case types.Uint16:
+		return 16
+	case types.Uint32:
+		return 32
+	case types.Uint64, types.Uint, types.Uintptr:
+		return 64
+	}
+	return 0
+}
+
+// splitKindKey: key == K<<s | id (or +, or operands swapped) with K a packetType constant, id an unsigned value of width
+// w <= s, and K<<s representable in the key type: (K, id) -> key is injective.
+func (c *Ctx) splitKindKey(key ssa.Value) (int64, ssa.Value, bool) {
+	bin, ok := stripTypeChange(key).(*ssa.BinOp)
+	if !ok || (bin.Op != token.OR && bin.Op != token.ADD && bin.Op != token.XOR) {
+		return 0, nil, false
+	}
+	kw := uintBits(bin.Type())
+	if kw == 0 {
+		return 0, nil, false
+	}
+	try := func(hi, lo ssa.Value) (int64, ssa.Value, bool) {
+		sh, ok := stripTypeChange(hi).(*ssa.BinOp)
+		if !ok || sh.Op != token.SHL {
+			return 0, nil, false
+		}
+		s, ok := constInt(sh.Y)
+		if !ok {
+			return 0, nil, false
+		}
+		kc, ok := stripTypeChange(sh.X).(*ssa.Const)
+		if !ok {
+			if cv, isConv := stripTypeChange(sh.X).(*ssa.Convert); isConv {
+				kc, ok = stripTypeChange(cv.X).(*ssa.Const)
+			}
+		}
+		if !ok || kc.Value == nil {
+			return 0, nil, false
+		}
+		kv, ok := constInt(kc)
+		if !ok || kv <= 0 || kv > 0xFF {
+			return 0, nil, false
+		}
+		if int(s)+8 > kw {
+			return 0, nil, false // the constant would be truncated
+		}
+		idv := lo
+		w := 0
+		if cv, isConv := stripTypeChange(lo).(*ssa.Convert); isConv {
+			w = uintBits(cv.X.Type())
+			idv = cv.X
+		} else {
+			w = uintBits(lo.Type())
+		}
+		if w == 0 || int64(w) > s {
+			return 0, nil, false // identifier bits overlap the constant: two (kind, id) pairs can share a key
+		}
+		return kv, idv, true
+	}
+	if kv, idv, ok := try(bin.X, bin.Y); ok {
+		return kv, idv, true
+	}
+	return try(bin.Y, bin.X)
+}
+
+func stripTypeChange(v ssa.Value) ssa.Value {
+	for {
+		ct, ok := v.(*ssa.ChangeType)
+		if !ok {
+			return v
+		}
+		v = ct.X
+	}
 }
